@@ -1,6 +1,9 @@
 import SimbodyProofs.TreeDynAbs
 import SimbodyProofs.TreeDynAbsMass
 import SimbodyProofs.TreeDynRefine
+import SimbodyProofs.TreeDynSim
+import SimbodyProofs.TreeDynSimAbi
+import SimbodyProofs.TreeDynSimFwd
 
 /-!
 # C01 — mass-matrix operators agree; M is symmetric positive definite; KE = ½ uᵀ M u
@@ -184,5 +187,44 @@ theorem refine_hinge (h : List (SV F)) (u : List F) (f : SV F) (j : Fin h.length
 /-- spatial dot product (`~H F`, kinetic energy) is the dense dot product -/
 theorem refine_dot (a b : SV F) : a.dot b = a.toVec ⬝ᵥ b.toVec := SV.dot_toVec a b
 end refine
+
+
+/-! ## simulation: the EXECUTED passes of `SimbodyModel/TreeDyn.lean` compute the twin's quantities at every node
+
+`absT dec t` is the twin tree of an executed tree (`H := hMat b.H`, `phi := phiMat b.l`, `M := b.Mk.toMat`,
+`DI :=` matrix of the executed `DI`, vector blocks = slices of the executed u-vectors).  Each statement is for every executed
+(sub)tree and every incoming parent acceleration, i.e. for every node of the executed result.
+NOT proved: the packing of the per-node blocks into the u-vector (`slice` / `scatter`, disjointness of the `u0` ranges), the
+construction of the tree from the flat parent array (`build`), that `ginv` inverts `D` (`WF` is a hypothesis, validated per case
+by `O wf`), and therefore the end-to-end identities `multiplyByM (multiplyByMInv f) = f` on arrays. -/
+section simulation
+open TreeDyn
+variable {F : Type} [Field F]
+
+/-- executed `multiplyByM`: at every node the stored block of `M v` is `Hᵀ F` with `F` the twin's `FrP zb zb` run on the
+blocks of `v`, and the stored body acceleration is the twin's `accP` -/
+theorem exec_mulM (v : Array F) (t : Tr (Body F)) (AP : SV F) :
+    (mulMRoot v t AP).2.2
+        = List.ofFn ((hMat t.val.H)ᵀ *ᵥ FrP zb zb fieldPol (absT (decV v) t) ((phiMat t.val.l)ᵀ *ᵥ AP.toVec)) ∧
+    (Tr.mapDown (mulMOut v) t AP).val.2.toVec
+        = accP zb fieldPol (absT (decV v) t) ((phiMat t.val.l)ᵀ *ᵥ AP.toVec) :=
+  ⟨sim_mulM_tau v t AP, sim_mulM_acc v t AP⟩
+
+/-- executed `realizeArticulatedBodyInertiasInward`: at every node `P`, `P⁺` (with the explicit symmetrisation) and
+`G = P H DI` are the twin's — given `WF` of the abstracted result (every executed `D·DI = 1`), no prescribed mobilizer, char ≠ 2 -/
+theorem exec_abi (ex : Body F → List F × List F × Bias F) (h2 : (2 : F) ≠ 0) (t : Tr (Body F)) (hnp : NoPresc t)
+    (hwf : WF (absT (decA ex) (Tr.mapUp abiIn t))) : AbiOK ex (Tr.mapUp abiIn t) :=
+  (sim_abi ex h2 t hnp hwf).2
+
+/-- executed `multiplyByMInv`: at every node the stored block of `M⁻¹ f` is the twin's `udotA zb zb` (run on the blocks of
+`f`) and the propagated acceleration is `accP zb` -/
+theorem exec_mulMInv (f : Array F) (ta : Tr (Body F × Abi F)) (AP : SV F) (hok : AbiOK (exM f) ta)
+    (hwf : WF (absT (decA (exM f)) ta)) :
+    (mInvDown f ta AP).1.2
+        = List.ofFn (udotA zb zb fieldF (absT (decA (exM f)) ta) ((phiMat ta.val.1.l)ᵀ *ᵥ AP.toVec)) ∧
+    (mInvDown f ta AP).2.toVec
+        = accP zb (udotA zb zb fieldF) (absT (decA (exM f)) ta) ((phiMat ta.val.1.l)ᵀ *ᵥ AP.toVec) :=
+  sim_mInv_down f ta AP hok hwf
+end simulation
 
 end C01
